@@ -33,6 +33,36 @@ ASSUMPTIONS = [
 ]
 
 NSLOT = 12          # up to 12 live secondary streams
+
+# The model driver binary is shared with every other check and is relinked whenever somebody builds;
+# the dynamic part runs outside the build lock, so it works on a private snapshot of the binary.
+_DRIVER = None
+
+
+def snapshot_driver():
+    global _DRIVER
+    import shutil
+    dst = os.path.join(C.BUILD, "c17-driver-%d" % os.getpid())
+    for _ in range(600):
+        try:
+            shutil.copy2(C.driver_exe(), dst)
+            os.chmod(dst, 0o755)
+            _DRIVER = dst
+            return dst
+        except OSError:
+            time.sleep(0.2)      # being relinked by a concurrent build
+    raise RuntimeError("model driver binary not available")
+
+
+def drop_driver():
+    global _DRIVER
+    if _DRIVER and os.path.exists(_DRIVER):
+        os.unlink(_DRIVER)
+    _DRIVER = None
+
+
+def model_lines(model, lines, timeout=300):
+    return D.run_lines([_DRIVER or C.driver_exe(), model], lines, timeout)
 OK = "ABT_SUCCESS"
 EX = "ABT_ERR_INV_XSTREAM"
 ER = "ABT_ERR_INV_XSTREAM_RANK"
@@ -269,7 +299,17 @@ def run_impl(exe, lines, timeout=180):
 
 
 def rank_disagreement(exe, lines):
-    return D.compare("rank", exe, lines, env={"ABT_MAX_NUM_XSTREAMS": "128"})
+    rc_c, out_c, err_c = run_impl(exe, lines)
+    rc_m, out_m, err_m = model_lines("rank", lines)
+    if rc_m != 0:
+        return {"kind": "model-driver-failed", "rc": rc_m, "stderr": err_m[-2000:]}
+    if rc_c != 0:
+        return {"kind": "impl-crash" if rc_c != -999 else "impl-timeout", "rc": rc_c, "stderr": err_c[-3000:],
+                "impl_out_tail": out_c[-5:]}
+    d = D.first_diff(out_c, out_m)
+    if d is None:
+        return None
+    return {"kind": "output-differs", "line": d[0], "impl": d[1], "model": d[2]}
 
 
 def classify_t2(res, what, exe, lines, d, ret_code_hist):
@@ -306,7 +346,7 @@ def t2_ranks(res, tier, broken, exe):
             w = o.split(" | ")[0].split()
             if len(w) >= 2:
                 rchist[w[0] + ":" + w[1]] += 1
-        rc_m, out_m, err_m = D.model_lines("rank", lines)
+        rc_m, out_m, err_m = model_lines("rank", lines)
         if rc_m != 0:
             res.violation("model driver failed", {"stderr": err_m[-1500:], "ops": lines[:50]}, no_input=True)
             break
@@ -493,7 +533,7 @@ def t3_xsctx(res, tier, broken):
     for k in range(nsched):
         lines = gen_xs_schedule(rng, nsteps)
         rc, out_c, err = D.run_lines([exe], lines, timeout=60)
-        rc_m, out_m, err_m = D.model_lines("xsctx", lines)
+        rc_m, out_m, err_m = model_lines("xsctx", lines)
         if rc_m != 0:
             res.violation("model driver failed", {"stderr": err_m[-1500:], "schedule": lines[:40]}, no_input=True)
             break
@@ -519,11 +559,11 @@ def t3_xsctx(res, tier, broken):
 
         def differs(ls):
             r1, o1, _ = D.run_lines([exe], ls, timeout=60)
-            r2, o2, _ = D.model_lines("xsctx", ls)
+            r2, o2, _ = model_lines("xsctx", ls)
             return r1 not in (0,) or D.first_diff(o1, o2) is not None
         small = D.ddmin(lines, differs, keep_prefix=1, budget=150)
         rc2, out2, err2 = D.run_lines([exe], small, timeout=60)
-        _, outm2, _ = D.model_lines("xsctx", small)
+        _, outm2, _ = model_lines("xsctx", small)
         why = xs_oracle(small, out2)
         if rc2 not in (0, 3) and not why:
             why = "implementation aborted rc=%s %s" % (rc2, err2[-300:])
@@ -601,16 +641,35 @@ def f7_overlap(res, tier, broken):
                       "(user pools: rc=%s %s ; automatic pools: rc=%s %s)" % (rc_u, line_u, rc_a, line_a), rep)
 
 
+def wb_stale_prev(res, tier, broken):
+    """Latent path (unreachable through the API, Props.C17.rank_head_is_primary): xstream_change_rank moving a
+    node in front of the head leaves its old p_prev.  The model predicts the exact fields
+    (Props.C17.change_rank_head_insert_stale_prev: a=2, b=3); the static C functions are run on the same list."""
+    exe = C.cc_harness("api_ranks_wb", ["api_ranks.c"], "plain", defs="-DWB_STREAM_C")
+    rc, out, err = run_prog([exe, "wbstale"], timeout=30)
+    exp = "wbstale granted=1 head=b b.rank=1 b.prev=a b.next=a a.prev=b a.next=NULL"
+    got = out.strip().split("\n")[-1] if out.strip() else "rc=%s %s" % (rc, err[-200:])
+    res.add_cov(latent_head_insert_stale_p_prev=got)
+    if got != exp:
+        res.violation("white-box xstream_change_rank on [a(3), b(5)] -> b:=1 differs from Model.Rank "
+                      "(model: %s ; code: %s)" % (exp, got), {"wbstale": True, "expected": exp, "got": got}, no_input=True)
+
+
 # --------------------------------------------------------------------------
 def run(res, tier, broken):
     t0 = time.time()
     exe = C.cc_harness("api_ranks", ["api_ranks.c"], "plain")
-    t2_ranks(res, tier, broken, exe)
-    t2_cycles(res, tier, broken, exe)
-    t3_race(res, tier, broken, exe)
-    t3_xsctx(res, tier, broken)
-    rp_single(res, tier, broken, exe)
-    f7_overlap(res, tier, broken)
+    snapshot_driver()
+    try:
+        t2_ranks(res, tier, broken, exe)
+        t2_cycles(res, tier, broken, exe)
+        wb_stale_prev(res, tier, broken)
+        t3_race(res, tier, broken, exe)
+        t3_xsctx(res, tier, broken)
+        rp_single(res, tier, broken, exe)
+        f7_overlap(res, tier, broken)
+    finally:
+        drop_driver()
     res.add_cov(dynamic_wall_s=round(time.time() - t0, 1))
 
 
@@ -632,10 +691,16 @@ def replay(res, path):
         rc, out, err = run_prog([exe, "replace"] + rep["replace"], timeout=120)
         print(out[-1500:], err[-500:])
         return 1 if (rc != 0 or "replace ok" not in out) else 0
+    if "wbstale" in rep:
+        wexe = C.cc_harness("api_ranks_wb", ["api_ranks.c"], "plain", defs="-DWB_STREAM_C")
+        rc, out, err = run_prog([wexe, "wbstale"], timeout=30)
+        print("expected:", rep.get("expected"))
+        print("got     :", out.strip())
+        return 0 if out.strip() == rep.get("expected") else 1
     if "xs_schedule" in rep:
         xexe = C.cc_harness("wb_xsctx", ["wb_xsctx.c"], "plain")
         rc, out_c, err = D.run_lines([xexe], rep["xs_schedule"], timeout=60)
-        _, out_m, _ = D.model_lines("xsctx", rep["xs_schedule"])
+        _, out_m, _ = model_lines("xsctx", rep["xs_schedule"])
         fd = D.first_diff(out_c, out_m)
         why = xs_oracle(rep["xs_schedule"], out_c)
         print("first difference (impl, model):", fd)
